@@ -428,6 +428,25 @@ func C02(ctx *core.Ctx) {
 					}
 					ctx.Check(okArgs, "C02.R3", name+" › field name and id are the caller's", r.IPos(c.Instr), "parameters passed through", "the helper does not announce the field name/id it was given")
 				}
+				// the value written is the value given: the caller's parameter itself (through
+				// conversions), not something computed from it — a helper that "normalises"
+				// what it writes (NaN/±Inf to 0, empty to nil …) puts another value on the wire
+				if c.Method != nil && c.Method.Name() == valueWriter && kind != "Struct" && len(c.Common.Args) >= 2 {
+					v := ssax.Strip(c.Common.Args[len(c.Common.Args)-1])
+					for {
+						if cv, ok := v.(*ssa.Convert); ok {
+							v = ssax.Strip(cv.X)
+							continue
+						}
+						if ct, ok := v.(*ssa.ChangeType); ok {
+							v = ssax.Strip(ct.X)
+							continue
+						}
+						break
+					}
+					_, isParam := v.(*ssa.Parameter)
+					ctx.Check(isParam, "C02.R3", name+" › writes the value it was given", r.IPos(c.Instr), "the argument of "+valueWriter+" is the value parameter", "the helper writes a value computed from its argument ("+v.String()+") instead of the argument: the peer decodes something the sender never set")
+				}
 				// every step's error is tested
 				if c.Method != nil && (c.Method.Name() == "WriteFieldBegin" || c.Method.Name() == "WriteFieldEnd" || c.Method.Name() == valueWriter) {
 					v := c.Instr.Value()
